@@ -41,10 +41,41 @@ def fam_general(**kw):
     return g
 
 
+import families as F
+
 GENERAL = {"name": "fam_general", "gen": fam_general(lines=4), "quick": 120, "thorough": 2500}
+GENERAL_S = {"name": "fam_general", "gen": fam_general(lines=4), "quick": 50, "thorough": 1000}
+
+
+def fam(name, quick, thorough):
+    return {"name": name, "gen": getattr(F, name), "quick": quick, "thorough": thorough}
+
 
 PROPS = {}
 for _i in range(1, 21):
     PROPS["C%02d" % _i] = {"families": [GENERAL], "mc": [],
                            "rule": "seeded random scenarios (tables, lines, schedules, triggers, holds, handler scripts) executed on the real code; "
                                    "every recorded API call validated against CatImpl and judged by the CatMon monitors"}
+
+PROPS["C01"]["families"] = [GENERAL_S, fam("fam_prefix", 40, 800)]
+PROPS["C02"]["families"] = [GENERAL_S, fam("fam_prefix", 30, 500), fam("fam_lanes", 20, 200), fam("fam_casefold", 10, 200)]
+PROPS["C04"]["families"] = [GENERAL_S, fam("fam_num", 60, 1500)]
+PROPS["C19"]["families"] = [GENERAL_S, fam("fam_desc", 60, 1500)]
+
+HOOK_COMMITS = []
+NOT_YET = {}
+_T = "TLA+ specification checked with TLC; conformance by trace validation of real executions (TLC evaluates CatImpl and the CatMon monitors on every recorded call)"
+CLAIMS = {
+    "C01": {"text": "Monitor C01 (pending-line / read-ahead / result-code accounting) is evaluated by TLC on every recorded execution of the real parser: general random corpus plus the prefix x suffix x registration-order sweep; the same executions are checked call by call against CatImpl.",
+            "note": "bounded: finite seeded corpora; lines of the sweep family are exhaustive per generated table only", "technique": _T},
+    "C02": {"text": "LineOutcome (declarative name resolution and suffix rule of CatOracle) predicts for every consumed line which handler may run; TLC compares it with the handler events of the real code over random tables, the prefix sweep, bit-lane tables of 4..64 commands and the case-fold family.",
+            "note": "duplicate names follow 'first FULL in registration order'; bounded corpora", "technique": _T},
+    "C04": {"text": "DecodeVar (digit-sequence arithmetic, no machine integers) predicts acceptance and the stored value of every numeric argument; TLC compares result code, callbacks and variable storage of the real code over boundary and adversarial digit strings (up to buffer capacity, beyond 2^64) for every type x width x access x position.",
+            "note": "values are compared as canonical digit strings produced by the harness from the variable's bytes", "technique": _T},
+    "C15": {"text": "Monitor: whenever cat_service returns OK nothing may be owed (no unanswered line, no owed output unit, no pending event) and a repeated call without stimulus must be a stutter; every scenario ends with a bounded settle loop whose failure is a violation.",
+            "note": "liveness is checked as bounded quiescence on executions (call budget per settle); the model-checking liveness configuration is not yet part of this check", "technique": _T},
+    "C18": {"text": "cat_is_busy / cat_is_hold are queried after every cat_service call in the general family; the monitor knows partial lines, unanswered lines and open output units from the observable events and flags an OK answer while any of them exists, and a BUSY answer at quiescence.",
+            "note": "between the last byte of a unit and quiescence either answer is accepted", "technique": _T},
+    "C19": {"text": "TestText / ListBlocks (CatOracle) predict the '=?' response and the command list from the descriptor; TLC matches the output bytes of the real code against them over random descriptors (types x widths x access x flags x handler subsets x groups) and capacities around the text length, by line and by event.",
+            "note": "consistency 'advertised form is accepted' follows from the dispatcher oracle (LineOutcome) being checked on the same tables", "technique": _T},
+}
